@@ -13,6 +13,16 @@ CHECKS = [
           "permutation of small spectra. Open finding F1 (helper does not sort; suite pins it) is recognised by exact agreement with the "
           "defect model compute_eigen_nosort, whose surviving laws (non-negativity, prefix) are proved and whose failure is proved (…_refuted).",
   "note": STD_NOTE},
+ {"id": "C02",
+  "text": "Theorems (w = trapezoid weights, s their non-zero square roots, C any covariance surface, (lambda,u) any output of the eigen-solver for "
+          "W^1/2 C W^1/2 characterised by the eigen-equation): eigenfunctions W^-1/2 u have quadrature inner products u_j.u_k (orthonormal iff the "
+          "solver's vectors are); every pair satisfies the integral eigen-equation C(w.phi) = lambda phi; with a complete family the Mercer sum "
+          "reproduces the surface (C z = sum lambda_k (phi_k.z) phi_k for all z) and the matrix the code builds acts as that sum; Gram route: "
+          "<phi_j,phi_k> = l_k (v_j.v_k)/(r_j r_k), hence mutual orthogonality and unit norm when r^2 = l. Tie: the implementation's "
+          "eigenvalues / eigenfunctions / covariance / Gram eigenvectors are fed to these relations evaluated exactly in Q, and compared up to sign "
+          "with the model's back-transform of an independent eigh. Open finding F1b (null-space eigenfunctions from np.linalg.eig not orthonormal "
+          "for n_components=None on rank-deficient data) recognised through a weaker defect certificate.",
+  "note": STD_NOTE},
  {"id": "C08",
   "text": "Theorems (all grids that are non-decreasing lists of reals, all integrands/datasets of matching length): trapezoid integration equals "
           "the dot product with its own weights, weights >= 0, additive and homogeneous, exact on affine pieces and additive over adjacent "
